@@ -142,7 +142,9 @@ func (e *Env) dumpRest(out []string, seq uint64) []string {
 	// balances
 	bal := func(name string, a sdk.AccAddress) {
 		for i, d := range Denoms {
-			amt := e.app.BankKeeper.GetBalance(ctx, a, d).Amount
+			// what the account can spend: coins a third party locked in a vesting account at an escrow address
+			// (operation LOCK) are not the module's to move and are invisible to the model
+			amt := e.app.BankKeeper.SpendableCoin(ctx, a, d).Amount
 			if !amt.IsZero() {
 				out = append(out, fmt.Sprintf("ST BAL %s %d %s", name, i, amt))
 			}
